@@ -150,8 +150,6 @@ Fixpoint read_clc (order : list N) (k : nat) (cl : list N) : SM (list N) :=
   | _, _ => sret cl
   end.
 
-Definition pad_to (n : N) (cl : list N) : list N := cl ++ repeat 0 (N.to_nat n - length cl).
-
 Definition nlen (cl : list N) : N := N.of_nat (length cl).
 
 (* ReadHuffmanCodeLengths: literal lengths 0..15; 16 repeats the previous non-zero length (initially 8) 3..6 times;
@@ -174,8 +172,9 @@ Fixpoint read_lengths (budget : nat) (alphabet : N) (tbl : list (N * list bool))
   end.
 
 (* "simple" code: one or two symbols given directly (1 or 8 bits, then 8 bits): code_lengths[symbol] = 1 *)
-Definition simple_lengths (alphabet : N) (syms : list N) : list N :=
-  map (fun i => if existsb (N.eqb (N.of_nat i)) syms then 1 else 0) (seq 0 (N.to_nat alphabet)).
+Fixpoint simple_lengths_from (i : N) (k : nat) (syms : list N) : list N :=
+  match k with O => [] | S k' => (if existsb (N.eqb i) syms then 1 else 0) :: simple_lengths_from (i + 1) k' syms end.
+Definition simple_lengths (alphabet : N) (syms : list N) : list N := simple_lengths_from 0 (N.to_nat alphabet) syms.
 
 Section Reading.
 Variable strict : bool.
@@ -203,8 +202,8 @@ Definition read_code (alphabet : N) : SM (list N) :=
                      sret (2 + v)
                    else sret alphabet) ;;
     _ <- require (rule_symbol_count max_symbol alphabet) RSymbolCount ;;
-    cl0 <- read_lengths (N.to_nat max_symbol) alphabet (code_table clc) [] 8 ;;
-    let cl := pad_to alphabet cl0 in
+    (* symbols after the last one read have length 0 *)
+    cl <- read_lengths (N.to_nat max_symbol) alphabet (code_table clc) [] 8 ;;
     _ <- rule_code strict cl ;;
     sret cl.
 
@@ -278,7 +277,9 @@ Definition pget (m : parray) (i : N) : N :=
 Definition pset (m : parray) (i : N) (v : N) : parray := PositiveMap.add (N.succ_pos i) v m.
 Definition pempty : parray := PositiveMap.empty N.
 (* the first n entries as a list *)
-Definition plist (m : parray) (n : N) : list N := map (fun i => pget m (N.of_nat i)) (seq 0 (N.to_nat n)).
+Fixpoint plist_from (m : parray) (i : N) (k : nat) : list N :=
+  match k with O => [] | S k' => pget m i :: plist_from m (i + 1) k' end.
+Definition plist (m : parray) (n : N) : list N := plist_from m 0 (N.to_nat n).
 
 (* colour cache: 2^bits entries, initially zero; every decoded pixel is inserted at its hash *)
 Definition cache_key (cache_bits p : N) : N := ((p * 0x1e35a7bd) mod 2 ^ 32) / 2 ^ (32 - cache_bits).
